@@ -523,3 +523,73 @@ func checkMarkOnlyOnMarker(c *Ctx, r *Report, rule string) {
 		r.Unk(rule, "recordFailed", c.Pos(fn.Pos()), "recordFailed never stores a failure")
 	}
 }
+
+// ---- C11: the logging package formats what it is given, nothing else ----------------------------------------------
+
+// checkLogArgsUntransformed: every formatting method of logging.Instance hands its variadic arguments to fmt as they
+// are. The library logs objects that reference secrets behind pointers (interactive events); fmt prints nested
+// pointers as addresses, anything that walks the arguments (reflection, custom dumping) prints what they point at.
+func checkLogArgsUntransformed(c *Ctx, r *Report, rule string) {
+	n := 0
+	for _, m := range exportedMethodsOf(c, "logging", "Instance") {
+		sig := m.Signature
+		if !sig.Variadic() || len(m.Params) == 0 {
+			continue
+		}
+		va := m.Params[len(m.Params)-1]
+		n++
+		construct := "logging.Instance." + m.Name() + " formats its arguments as given"
+		bad := ""
+		for _, ref := range *va.Referrers() {
+			ci, ok := ref.(ssa.CallInstruction)
+			if !ok {
+				if _, isDbg := ref.(*ssa.DebugRef); isDbg {
+					continue
+				}
+				bad = "the argument list is taken apart before formatting"
+				continue
+			}
+			o := CalleeObj(ci)
+			if o == nil || o.Pkg() == nil || o.Pkg().Path() != "fmt" || !strings.HasPrefix(o.Name(), "Sprint") {
+				bad = "the argument list is handed to " + describeCall(c, ci) + " instead of fmt.Sprint*"
+			}
+		}
+		if bad == "" {
+			r.OK(rule, construct, c.Pos(m.Pos()), "a ...interface{} goes to fmt.Sprint* unchanged")
+		} else {
+			r.Bad(rule, construct, c.Pos(m.Pos()), bad+": the library logs event lists and option objects that reference secrets behind pointers; printed by fmt they show as addresses, walked by anything else their contents reach the log")
+		}
+	}
+	pk := c.PkgBy[modPath+"/logging"]
+	if pk != nil && pk.Types != nil {
+		for _, imp := range pk.Types.Imports() {
+			if imp.Path() == "reflect" || imp.Path() == "encoding/json" {
+				r.Bad(rule, "logging imports "+imp.Path(), "-", "the logging package walks values by reflection: objects that reference secrets behind pointers are printed by content")
+			}
+		}
+	}
+	if n == 0 {
+		r.Unk(rule, "logging.Instance", "-", "no variadic formatting method found")
+	}
+}
+
+// ---- C12 (and others): compiled patterns are never overwritten in place --------------------------------------------
+
+func checkNoRegexpOverwrite(c *Ctx, r *Report, rule string) {
+	bad := 0
+	for _, fn := range c.LibFns {
+		allInstrs(fn, func(in ssa.Instruction) {
+			st, ok := in.(*ssa.Store)
+			if !ok {
+				return
+			}
+			if n, isNamed := st.Val.Type().(*types.Named); isNamed && n.Obj().Pkg() != nil && n.Obj().Pkg().Path() == "regexp" && n.Obj().Name() == "Regexp" {
+				bad++
+				r.Bad(rule, fmt.Sprintf("%s overwrites a compiled pattern in place#%d", shortFn(fn), bad), c.Pos(in.Pos()), "a regexp.Regexp value is copied over another one through its pointer: every holder of that pointer -- the default prompt pattern is one process-wide object shared by all channels -- now matches the new expression, so another driver's operations are paced by this driver's prompts")
+			}
+		})
+	}
+	if bad == 0 {
+		r.OK(rule, "compiled patterns", "-", "patterns are replaced by assigning a new pointer, never overwritten in place")
+	}
+}
